@@ -3,6 +3,7 @@ package main
 import (
 	"fmt"
 	"go/types"
+	"strings"
 
 	"golang.org/x/tools/go/ssa"
 )
@@ -145,4 +146,84 @@ func findInstrs(fn *ssa.Function, pr instrPred) []ssa.Instruction {
 		}
 	})
 	return out
+}
+
+// ruleLocked (R-LOCKED): every load/store of field f happens with the mutex
+// field mu of the same object in the must-held set, or on an object freshly
+// allocated in the same function (constructor), or in a function listed in
+// except (one symbol, one reason). Returns the number of accesses examined.
+func ruleLocked(p *Prog, r *Report, li *LockInfo, key string, f *types.Var, mu string, except map[string]string) int {
+	if f == nil {
+		r.Undecided(key, "R-LOCKED", "guarded field not found")
+		return 0
+	}
+	acc := fieldAccesses(li.fns, f)
+	bad := 0
+	used := map[string]bool{}
+	for _, a := range acc {
+		r.Sites++
+		r.Func(funcName(a.Fn))
+		if _, fresh := a.Base.(*ssa.Alloc); fresh {
+			continue
+		}
+		need := path(a.Base) + "." + mu
+		held := li.At(a.Instr)
+		if held[need] {
+			continue
+		}
+		top := a.Fn
+		for top.Parent() != nil {
+			top = top.Parent()
+		}
+		if why, ok := except[funcName(top)]; ok {
+			used[funcName(top)] = true
+			_ = why
+			continue
+		}
+		bad++
+		r.Fail(fmt.Sprintf("%s.access@%s", key, funcName(a.Fn)), "R-LOCKED", p.InstrPos(a.Instr),
+			fmt.Sprintf("field %s is accessed in %s without %s held (must-held set here: %s)", f.Name(), funcName(a.Fn), need, held))
+	}
+	for fn := range except {
+		if !used[fn] {
+			r.Fail(key+".stale-exception."+fn, "R-LOCKED", "-", "exception row for "+fn+" no longer matches any unguarded access (stale table row)")
+		}
+	}
+	if bad == 0 {
+		r.OK(key, "R-LOCKED", "-", fmt.Sprintf("all %d access(es) to %s hold <object>.%s (or are constructor initialisations)", len(acc), f.Name(), mu))
+	}
+	return len(acc)
+}
+
+// ruleNotHeldAtCalls (R-NOLOCKCALL / R-LOCKORDER): at every instruction in the
+// repository satisfying pr, no lock whose path ends in one of the given
+// suffixes may be held (may-analysis).
+func ruleNotHeldAtCalls(p *Prog, r *Report, may *LockInfo, key, rule string, pr instrPred, suffixes []string, what string) int {
+	n, bad := 0, 0
+	for _, fn := range may.fns {
+		eachInstr(fn, func(in ssa.Instruction) {
+			if _, isDefer := in.(*ssa.Defer); isDefer {
+				return
+			}
+			if !pr(in) {
+				return
+			}
+			n++
+			r.Sites++
+			held := may.At(in)
+			for k := range held {
+				for _, suf := range suffixes {
+					if k == suf || strings.HasSuffix(k, "."+suf) {
+						bad++
+						r.Fail(fmt.Sprintf("%s@%s", key, funcName(fn)), rule, p.InstrPos(in),
+							fmt.Sprintf("%s in %s may execute while %s is held (may-held set: %s)", what, funcName(fn), k, held))
+					}
+				}
+			}
+		})
+	}
+	if bad == 0 {
+		r.OK(key, rule, "-", fmt.Sprintf("%d site(s) of %s, none with %v possibly held", n, what, suffixes))
+	}
+	return n
 }
